@@ -32,7 +32,11 @@ type C09Case struct {
 	PrelA   []C09Call    `json:"prel_a"`
 	PrelB   []C09Call    `json:"prel_b"`
 	RunOnly string       `json:"run_only,omitempty"` // set by the parent for the worker: "A", "B" or "-" (no prelude)
+	Env     int          `json:"env,omitempty"`      // worker environment: see c09Envs
 }
+
+// c09Envs are the back-end selections the three workers of a case share.
+var c09Envs = [][]string{nil, {"SONIC_USE_OPTDEC=1"}, {"SONIC_USE_OPTDEC=1", "SONIC_USE_FASTMAP=1"}, {"SONIC_ENCODER_USE_VM=1"}}
 
 func init() { register("C09", func() Case { return &C09Case{} }) }
 
@@ -60,7 +64,7 @@ func drawC09(t *rapid.T) Case {
 	}
 	nt := len(c.Types)
 	call := func(probe bool) C09Call {
-		ops := []string{"marshal", "unmarshal", "marshal", "unmarshal", "pretouch", "pretouchmany", "filler"}
+		ops := []string{"marshal", "unmarshal", "marshal", "unmarshal", "pretouch", "pretouchmany", "filler", "hostile", "hostile"}
 		if probe {
 			ops = ops[:4]
 		}
@@ -78,6 +82,9 @@ func drawC09(t *rapid.T) Case {
 			} else {
 				cl.Types = append(cl.Types, rapid.IntRange(0, nt-1).Draw(t, "t"))
 			}
+		}
+		if cl.Op == "hostile" {
+			cl.N = rapid.IntRange(1, 63).Draw(t, "hostilemask")
 		}
 		if cl.Op == "filler" {
 			cl.N = []int{10, 100, 500, 2100}[rapid.IntRange(0, 3).Draw(t, "fillern")]
@@ -97,6 +104,7 @@ func drawC09(t *rapid.T) Case {
 	for i, n := 0, rapid.IntRange(0, 5).Draw(t, "nb"); i < n; i++ {
 		c.PrelB = append(c.PrelB, call(false))
 	}
+	c.Env = []int{0, 0, 0, 1, 1, 2, 3}[rapid.IntRange(0, 6).Draw(t, "env")]
 	return c
 }
 
@@ -175,6 +183,50 @@ func (c *C09Case) c09Exec(cl C09Call, tys []reflect.Type, vals []reflect.Value) 
 			ts = append(ts, tys[i])
 		}
 		return fmt.Sprint("pretouchmany ", sonic.PretouchMany(ts, opts...) != nil)
+	case "hostile":
+		// calls that leave pooled parsers, buffers and stacks in unusual states: repaired UTF-8, errors in
+		// the middle of a document, big outputs, escapes, HTML escaping, ast use
+		var sink interface{}
+		if cl.N&1 != 0 {
+			sonic.ConfigStd.Unmarshal([]byte("{\"k\":\"a\xffb\",\"e\":\"x\\ny\"}"), &sink)
+			var m map[string]string
+			sonic.ConfigStd.Unmarshal([]byte("{\"k\xc0\":\"\xe4\xb8\"}"), &m)
+		}
+		if cl.N&2 != 0 {
+			for _, d := range []string{`{"a":[1,2,{"b":"c\\u00e9"`, `[[[[[[1,`, `{"a":1,"b":tru}`, `"abc\\`, `{"k":"v"}}`, "[1e999]", `{"a":"\\ud800"}`} {
+				sonic.ConfigStd.Unmarshal([]byte(d), &sink)
+				var st struct {
+					A []interface{} `json:"a"`
+					B string        `json:"b"`
+				}
+				sonic.Unmarshal([]byte(d), &st)
+			}
+		}
+		if cl.N&4 != 0 {
+			sonic.ConfigStd.Marshal([]interface{}{"bad\xffutf8", "<html>&", strings.Repeat("\xc0x", 40)})
+			sonic.Marshal(map[string]interface{}{"\xff": "\xfe", "<": ">"})
+		}
+		if cl.N&8 != 0 {
+			big := `{"big":"` + strings.Repeat("abc\\n", 20000) + `","n":[` + strings.Repeat("1.5,", 3000) + `2]}`
+			sonic.Unmarshal([]byte(big), &sink)
+			sonic.Marshal(sink)
+		}
+		if cl.N&16 != 0 {
+			if n, err := sonic.Get([]byte(`{"a":[1,{"b":"\\u00e9\\n"}],"c":null}`), "a", 1, "b"); err == nil {
+				n.String()
+				n.Raw()
+			}
+			sonic.Valid([]byte(`{"a":[1,2`))
+		}
+		if cl.N&32 != 0 {
+			var n json.Number
+			sonic.ConfigStd.UnmarshalFromString(`123456789012345678901234567890e-5`, &n)
+			var f float32
+			sonic.UnmarshalString(`3.4028236e38`, &f)
+			var u uint8
+			sonic.UnmarshalString(`256`, &u)
+		}
+		return "hostile ok"
 	case "filler":
 		for i := 0; i < cl.N; i++ {
 			ft := reflect.StructOf([]reflect.StructField{{Name: fmt.Sprintf("Filler%d", i), Type: reflect.TypeOf(0)}})
@@ -247,7 +299,7 @@ func (c *C09Case) c09Std() ([]string, error) {
 func (c *C09Case) Run() (res stat.Result) {
 	res.Sub = 3
 	ask := func(which string) (string, error) {
-		w, err := startWorker([]string{"VERIF_C09=" + which})
+		w, err := startWorker(append([]string{"VERIF_C09=" + which}, c09Envs[c.Env]...))
 		if err != nil {
 			panic("harness: cannot start worker: " + err.Error())
 		}
@@ -260,6 +312,7 @@ func (c *C09Case) Run() (res stat.Result) {
 	ta, ea := ask("A")
 	tb, eb := ask("B")
 	res.NonTrivial = len(c.PrelA)+len(c.PrelB) > 0
+	res.Classes = append(res.Classes, fmt.Sprintf("env:%v", c09Envs[c.Env]))
 	for _, cl := range append(append([]C09Call{}, c.PrelA...), c.PrelB...) {
 		res.Classes = append(res.Classes, "prelude:"+cl.Op)
 		if cl.Op == "filler" && cl.N >= 2000 {
